@@ -6,6 +6,7 @@
 //! output:      `<id>.<k>|x y z`            (one line per observation)
 #![allow(dead_code, dangerous_implicit_autorefs, unused_unsafe, static_mut_refs)]
 mod abortchild;
+mod cmps;
 mod layout;
 mod mech;
 mod ptrs;
@@ -69,6 +70,7 @@ fn main() {
             "layout" => layout::run_case(&ops),
             "mech" => mech::run_case(&ops),
             "ptr" => ptrs::run_case(&ops),
+            "cmp" => cmps::run_case(&ops),
             _ => {
                 eprintln!("unknown stream {}", stream);
                 std::process::exit(2);
